@@ -66,6 +66,8 @@ pub broadcast axiom fn r_div_pos(a: f64, b: f64) ensures
 pub broadcast axiom fn r_div_special(a: f64, b: f64) ensures R(b) != 0real && R(a) == 0real ==> R(#[trigger] a.div_spec(b)) == 0real,
     R(b) != 0real && R(a) == R(b) ==> R(a.div_spec(b)) == 1real,
     R(b) != 0real && R(a) == 0real - R(b) ==> R(a.div_spec(b)) == 0real - 1real;
+/// exact division (not in the default group: units that need the quotient itself `broadcast use` it)
+pub broadcast axiom fn r_div_exact(a: f64, b: f64) ensures R(b) != 0real ==> R(#[trigger] a.div_spec(b)) == R(a) / R(b);
 pub broadcast axiom fn r_mul_nonzero(a: f64, b: f64) ensures R(a) != 0real && R(b) != 0real ==> R(#[trigger] a.mul_spec(b)) != 0real;
 pub broadcast axiom fn r_mul_zero(a: f64, b: f64) ensures R(a) == 0real || R(b) == 0real ==> R(#[trigger] a.mul_spec(b)) == 0real;
 pub broadcast axiom fn r_div_one(a: f64, b: f64) ensures R(a) == 1real && 0real < R(b) <= 1real ==> R(#[trigger] a.div_spec(b)) >= 1real,
